@@ -49,7 +49,11 @@ def check(run):
             if name == "deep" and not thorough:
                 continue
             use = seqs if name == "prefix" or thorough else seqs[::4]
-            for h in use + sim:
+            for j, h in enumerate(use + sim):
+                if j % 5 == 4:
+                    # "exactly the non-empty entries": in every fifth sequence the value v2 is the empty one - an entry that
+                    # is written empty is not there for lookups, Count and Iterate alike
+                    h = [dict(o, v="") if o.get("v") == "v2" else o for o in h]
                 scns.append({"mode": "store", "kind": kind, "keys": keys, "ops": h})
     spath = os.path.join(run.scratch, "scenarios.ndjson")
     with open(spath, "w") as f:
